@@ -53,6 +53,7 @@ static struct {
 	int waits_started[RT_MAXT];
 	int sink;
 	int cur_op[RT_MAXT];
+	int nq, counted[RT_MAXT];   /* waits that have queued themselves so far (mirrors Mu.tla's ghost nq, never ahead of it) */
 } S;
 static int maxsleeps;
 static void scan_waiters (void);
@@ -115,7 +116,7 @@ static void client (void *arg) {
 		if (ip >= S.nops[t]) { if (S.looper[t]) { ip = 0; continue; } break; }
 		o = &S.prog[t][ip];
 		S.done_ops[t]++;
-		S.cur_op[t] = ip;
+		S.cur_op[t] = ip; S.counted[t] = 0;
 		switch (o->op) {
 		case O_LOCK: ip++; S.sleeps[t] = 0; S.inlock[t] = 1; if (o->lt == 1) nsync_mu_lock (S.mu); else nsync_mu_rlock (S.mu); S.inlock[t] = 0; break;
 		case O_TRYLOCK: ip++; S.ret[t] = (o->lt == 1) ? nsync_mu_trylock (S.mu) : nsync_mu_rtrylock (S.mu); break;
@@ -255,8 +256,8 @@ static int client_gate (int t) {
 	if (S.ip[t] >= S.nops[t]) return 1;
 	o = &S.prog[t][S.ip[t]];
 	if (o->op != O_GATE) return 1;
-	for (i = 0; i < S.n; i++) started += S.waits_started[i] > 0;
-	return started >= o->x;
+	(void) i; (void) started;
+	return S.nq >= o->x;
 }
 
 /* ---- projection ---- */
@@ -335,9 +336,25 @@ static int pre (int actor, const char *label, const char *prev, const char *exp,
 	}
 	return 0;
 }
+static int in_list (nsync_dll_list_ l, void *nwp) { int k = 0; nsync_dll_element_ *p; for (p = nsync_dll_first_ (l); p != NULL && k < 32; p = nsync_dll_next_ (l, p), k++) if (p->container == nwp) return 1; return 0; }
+static void count_queued (void) {
+	int i;
+	if (S.mu_freed) return;
+	if ((*(volatile uint32_t *) &S.mu->word & MU_SPINLOCK) || (*(volatile uint32_t *) &S.cv->word & CV_SPINLOCK)) return;
+	for (i = 0; i < S.n; i++) {
+		struct op *o; waiter *w = (waiter *) rt_tls_waiter (i); int q = 0;
+		if (S.counted[i] || S.cur_op[i] >= S.nops[i] || rt_state (i) == F_DONE) continue;
+		o = &S.prog[i][S.cur_op[i]];
+		if ((o->op == O_CVWAIT || o->op == O_CVLOOP) && w) q = in_list (S.cv->waiters, &w->nw);
+		else if (o->op == O_MUWAIT && w) q = in_list (S.mu->waiters, &w->nw);
+		else if ((o->op == O_WAITN || o->op == O_WAITNLOOP) && S.nwrec[i]) q = in_list (S.cv->waiters, (char *) S.nwrec[i] - offsetof (struct nsync_waiter_s, waiting));
+		if (q) { S.counted[i] = 1; if (S.nq < S.n) S.nq++; }
+	}
+}
 static void note_step (int t) {
 	const struct rt_op *o = rt_last (t);
 	char fb[64];
+	count_queued ();
 	if ((o->kind == OP_ST || o->kind == OP_LD) && o->addr && rt_stack_owner (o->addr) >= 0) {
 		rt_op_fn (o, fb, sizeof fb);
 		if (!strcmp (fb, "nsync_wait_n") || !strcmp (fb, "cv_enqueue") || !strcmp (fb, "cv_ready_time")) S.nwrec[rt_stack_owner (o->addr)] = o->addr;
@@ -441,10 +458,11 @@ static int run_random (long runs, unsigned seed, const char *init, const char *v
 		while (!victim_done () && guard < 100000 && !rt_first_violation ()) {
 			int cand[RT_MAXT], nc = 0, t;
 			for (i = 0; i < S.n; i++) if (rt_enabled (i)) cand[nc++] = i;
-			if ((nc == 0 || (rnd () % 16) == 0) && rt_now () < RT_T0 + maxdl + 1) {
-				int useful = 0;
-				for (i = 0; i < S.n; i++) if (rt_state (i) == F_PARKED && rt_pending (i)->kind == OP_SEMPD) useful = 1;
-				if (useful || nc == 0) { rt_tick (); fprintf (sf, "S 0 Tick *\n"); guard++; continue; }
+			if ((nc == 0 || (rnd () % 16) == 0) && rt_timed_waiter_pending ()) {
+				/* the clock advances only while somebody sleeps with a deadline still ahead (Mu.tla's TickUseful) */
+				rt_tick (); fprintf (sf, "S 0 Tick *\n");
+				if (trace) fprintf (trace, "{\"t\":0,\"k\":\"tick\",\"w\":0,\"cw\":0}\n");
+				guard++; continue;
 			}
 			if (nc == 0) break;
 			if (pct_depth == 0) t = cand[rnd () % (unsigned) nc];
@@ -465,7 +483,7 @@ static int run_random (long runs, unsigned seed, const char *init, const char *v
 		}
 		steps_total += guard;
 		if (!rt_first_violation () && !victim_done ()) finish (1);
-		if (trace) fprintf (trace, "{\"t\":0,\"k\":\"reset\"}\n");
+		if (trace) fprintf (trace, "{\"t\":0,\"k\":\"reset\",\"w\":0,\"cw\":0}\n");
 		fclose (sf);
 		if (rt_first_violation ()) {
 			const struct rt_viol *v = rt_first_violation ();
